@@ -79,8 +79,9 @@ def step (st0 : St) (ws : List String) : St × String :=
   | ["fault", k] => ({ st0 with armed := some (k.toNat!, false) }, "ok")
   | ["faultfrom", k] => ({ st0 with armed := some (k.toNat!, true) }, "ok")
   | ["new", m] =>
-    if plan 1 then ({ tbl := Tbl.init, mode := m.toNat!, quiet := st.quiet }, "null live=0")
-    else ({ tbl := Tbl.init, mode := m.toNat!, quiet := st.quiet }, "ok " ++ stateStr Tbl.init)
+    -- mode >= 10: the same comparator on a table created thread-safe (no difference in the model)
+    if plan 1 then ({ tbl := Tbl.init, mode := m.toNat! % 10, quiet := st.quiet }, "null live=0")
+    else ({ tbl := Tbl.init, mode := m.toNat! % 10, quiet := st.quiet }, "ok " ++ stateStr Tbl.init)
   | ["end"] => ({ st with tbl := Tbl.init, cur := {}, mode := 0 }, "end live=0 bad=0")
   | ["quiet", q] => ({ st0 with quiet := q != "0" }, "ok")
   | ["dump"] => (st0, "ok " ++ stateStrQ false st.tbl)
